@@ -817,10 +817,11 @@ Section WalletProofs.
   Qed.
 
   Lemma op_clean_chpwd : forall (w : wallet) addr old new, op_clean key blob w (OChangePwd key addr old new) ->
-    new <> "" /\ chpwd_params blob w = open_params blob w.
+    (new = "" -> old = "") /\ chpwd_params blob w = open_params blob w.
   Proof.
     intros w addr old new [_ C]. cbn [in_finding_class] in C. apply orb_false_iff in C. destruct C as [C1 C2].
-    split; [apply String.eqb_neq; assumption|]. apply negb_false_iff, scrypt_eqb_eq in C2. assumption.
+    split; [|apply negb_false_iff, scrypt_eqb_eq in C2; assumption].
+    intros ->. rewrite String.eqb_refl in C1. simpl in C1. apply negb_false_iff, String.eqb_eq in C1. assumption.
   Qed.
 
   Lemma step_inv : forall w o, Inv w -> op_clean key blob w o -> Inv (fst (step w o)).
@@ -990,13 +991,14 @@ Section WalletProofs.
   Qed.
 
   Lemma change_password_keyed : forall w g addr old new, Inv w -> Keyed w g ->
-    new <> "" -> chpwd_params blob w = open_params blob w ->
+    (new = "" -> old = "") -> chpwd_params blob w = open_params blob w ->
     Keyed (fst (change_password w addr old new))
           (gstep key g (OChangePwd key addr old new) (snd (change_password w addr old new))).
   Proof.
-    intros w g addr old new I K Hnew Hprm. unfold change_password.
+    intros w g addr old new I K Hnew0 Hprm. unfold change_password.
     destruct (String.eqb_spec old new) as [Eon|Hon].
     { cbn [fst snd gstep]. apply String.eqb_eq in Eon. rewrite Eon. assumption. }
+    assert (Hnew : new <> "") by (intros E; apply Hon; rewrite (Hnew0 E), E; reflexivity).
     destruct (mget addr (w_addrs blob w)) as [id|] eqn:Eid; [|assumption].
     destruct (deref blob w id) as [x|] eqn:Dx; [|assumption].
     destruct (decrypt (chpwd_params blob w) x old) as [k'|] eqn:Edec; [|assumption].
@@ -1212,3 +1214,69 @@ Section WalletProofs.
   Qed.
 
 End WalletProofs.
+
+(** ** [clean] = the caller's obligations + no operation of a finding class *)
+Lemma clean_split : forall key blob enc dec ops w,
+  clean key blob enc dec w ops <->
+  caller_ok key blob enc dec w ops /\ history_in_finding_class key blob enc dec w ops = false.
+Proof.
+  intros key blob enc dec. induction ops as [|o r IH]; intros w; simpl; [tauto|].
+  rewrite IH, orb_false_iff. unfold op_clean. tauto.
+Qed.
+
+(** ** the executable cipher instance is ideal *)
+Lemma ectx_eqb_eq : forall a b, ectx_eqb a b = true <-> a = b.
+Proof.
+  intros [s1 a1] [s2 a2]. unfold ectx_eqb. simpl. rewrite andb_true_iff, scrypt_eqb_eq, String.eqb_eq.
+  split; [intros [-> ->]; reflexivity|intros E; inversion E; auto].
+Qed.
+
+Lemma ideal_instance : ideal_cipher ienc idec.
+Proof.
+  split.
+  - intros c p k. unfold idec, ienc. assert (ectx_eqb c c = true) as -> by (apply ectx_eqb_eq; reflexivity).
+    rewrite String.eqb_refl. reflexivity.
+  - intros c p k c' p' Hne. unfold idec, ienc.
+    destruct (ectx_eqb c' c) eqn:E1; [|reflexivity]. destruct (String.eqb_spec p' p) as [->|]; [|reflexivity].
+    apply ectx_eqb_eq in E1. subst. congruence.
+Qed.
+
+(** ** witnesses of the three defects, on the executable instance *)
+Local Open Scope N_scope.
+Definition wit_key : keyinfo N := {| ki_key := 7; ki_addr := "A1"; ki_pub := "02aa"; ki_alg := 0; ki_curve := "P-256" |}.
+Definition wit_import (prm : scrypt) : op N := OImport N "main" "A1" "02aa" 1 0 "P-256" prm "pw" 7.
+
+(** newaccount:wallet-scrypt-ignored — a wallet exported with --low-security, then `account add` *)
+Definition wit_newaccount : list (op N) := [ONew N "main" 1 "pw" wit_key].
+(** import:duplicate-address — the same account imported twice, then deleted once *)
+Definition wit_dup_import : list (op N) := [wit_import default_scrypt; wit_import default_scrypt; ODelete N "A1" "pw"].
+(** chpwd:empty-new-password *)
+Definition wit_empty_pwd : list (op N) := [wit_import default_scrypt; OChangePwd N "A1" "pw" ""].
+
+Definition irun (prm : scrypt) (ops : list (op N)) := run N iblob ienc idec (init iblob prm) [] ops.
+Definition iprop (prm : scrypt) (ops : list (op N)) : Prop :=
+  wallet_property N iblob idec (fst (fst (irun prm ops))) (snd (fst (irun prm ops))).
+
+Lemma wit_newaccount_caller_ok : caller_ok N iblob ienc idec (init iblob low_security_scrypt) wit_newaccount.
+Proof. vm_compute. auto. Qed.
+
+Lemma wit_newaccount_fails : ~ iprop low_security_scrypt wit_newaccount.
+Proof.
+  intros (_ & _ & H). specialize (H "A1"%string 7 "pw"%string eq_refl). destruct H as [H _].
+  vm_compute in H. discriminate.
+Qed.
+
+Lemma wit_dup_import_caller_ok : caller_ok N iblob ienc idec (init iblob default_scrypt) wit_dup_import.
+Proof. vm_compute. repeat split; discriminate. Qed.
+
+Lemma wit_dup_import_fails : ~ iprop default_scrypt wit_dup_import.
+Proof. intros ((_ & H & _) & _). vm_compute in H. discriminate. Qed.
+
+Lemma wit_empty_pwd_caller_ok : caller_ok N iblob ienc idec (init iblob default_scrypt) wit_empty_pwd.
+Proof. vm_compute. repeat split; discriminate. Qed.
+
+Lemma wit_empty_pwd_fails : ~ iprop default_scrypt wit_empty_pwd.
+Proof.
+  intros (_ & _ & H). specialize (H "A1"%string 7 ""%string eq_refl). destruct H as [H _].
+  vm_compute in H. discriminate.
+Qed.
